@@ -16,20 +16,23 @@ Definition d_fcase (r : raw) : option fcase :=
 Definition e_triple (t : xv * xv * xv) : raw := RL [e_xv (fst (fst t)); e_xv (snd (fst t)); e_xv (snd t)].
 Definition e_q (q : Q) : raw := e_xv (XFin q).
 
-(* the specification value of the exact method, proved to be the integral (proofs/C07_int.v) *)
+(* the specification value of the exact method, proved to be the integral (proofs/C07_int.v):
+   on [t0,t1) the weight is w0 and F is linear from f0 to f1; the piece counts as under-forecast
+   when it lies left of the observation, as over-forecast otherwise.
+   int_{t0}^{t1} (linear a -> b)^2 = (t1-t0)(a^2+ab+b^2)/3 *)
 Definition sq_piece (d a b : Q) : Q := d * (a * a + a * b + b * b) / 3.
-Fixpoint spec_exact (pts : list (Q * (Q * Q))) (y : Q) : Q * Q :=      (* points (t, (F, w)); -> (under, over) *)
+Fixpoint spec_exact (pts : list (Q * Q * Q)) (y : Q) : Q * Q :=      (* points (t, F, w); -> (under, over) *)
   match pts with
-  | (t0, (f0, w0)) :: (((t1, (f1, _)) :: _) as tl) =>
+  | (t0, f0, w0) :: (((t1, f1, _) :: _) as tl) =>
       let '(u, o) := spec_exact tl y in
-      if Qle_bool t1 y then (u + w0 * sq_piece (t1 - t0) f0 f1, o)
+      if Qltb t0 y then (u + w0 * sq_piece (t1 - t0) f0 f1, o)
       else (u, o + w0 * sq_piece (t1 - t0) (f0 - 1) (f1 - 1))
   | _ => (0, 0)
   end%Q.
 Definition q_of (v : xv) : option Q := match v with XFin q => Some q | _ => None end.
 Definition spec_exact_x (ts : list Q) (f w : list xv) (y : xv) : xv * xv * xv :=
   match omap q_of f, omap q_of w, y with
-  | Some f, Some w, XFin y => let '(u, o) := spec_exact (combine ts (combine f w)) y in (XFin (u + o)%Q, XFin u, XFin o)
+  | Some f, Some w, XFin y => let '(u, o) := spec_exact (combine (combine ts f) w) y in (XFin (u + o)%Q, XFin u, XFin o)
   | _, _, _ => (XNaN, XNaN, XNaN) end.
 (* the specification of one case: same grid and fills as the code, exact value from spec_exact *)
 Definition spec_case (grid ft : list Q) (wt : option (list Q)) (op : cdfopts) (c : fcase) : xv * xv * xv :=
